@@ -50,7 +50,14 @@ pub mod ffi {
         idx: u64,
     ) {
         let idx = idx.try_into().ok();
-        match idx.and_then(|idx| this.get(idx)) {
+
+        // Hold the lock from the lookup of the element until it has been
+        // cloned, so that a concurrent push cannot move or free the buffer
+        // that `src` points into.
+        #[cfg(feature = "verif-hooks")]
+        crate::verif::list_lock(std::sync::Arc::as_ptr(&this.0) as usize, "list_get#1");
+        let raw = this.0.lock().unwrap();
+        match idx.and_then(|idx| raw.get(idx)) {
             Some(src) => {
                 // We got a pointer into the list, clone it into out at the correct alignment
 
@@ -63,9 +70,6 @@ pub mod ffi {
                 // `out` must be a valid RotoOption<T>.
                 unsafe { out.cast::<u8>().write(1) };
 
-                #[cfg(feature = "verif-hooks")]
-                crate::verif::list_lock(std::sync::Arc::as_ptr(&this.0) as usize, "list_get#1");
-                let raw = this.0.lock().unwrap();
                 let size = raw.vtable.size();
                 let alignment = raw.vtable.align();
                 let offset = 1usize.next_multiple_of(alignment);
@@ -250,7 +254,12 @@ pub mod boundary {
 
         /// Get the element at index `idx`
         pub fn get(&self, idx: usize) -> Option<T> {
-            let ptr = self.inner.get(idx)?;
+            // Hold the lock until the element has been cloned, so that a
+            // concurrent push cannot move or free the buffer under us.
+            #[cfg(feature = "verif-hooks")]
+            crate::verif::list_lock(std::sync::Arc::as_ptr(&self.inner.0) as usize, "List::get#1");
+            let guard = self.inner.0.lock().unwrap();
+            let ptr = guard.get(idx)?;
 
             #[cfg(feature = "verif-hooks")]
             crate::verif::ptr_use(ptr.as_ptr() as usize, "List::get");
@@ -553,12 +562,6 @@ impl ErasedList {
         drop(raw);
 
         new
-    }
-
-    pub fn get(&self, idx: usize) -> Option<NonNull<T>> {
-        #[cfg(feature = "verif-hooks")]
-        crate::verif::list_lock(std::sync::Arc::as_ptr(&self.0) as usize, "get#1");
-        self.0.lock().unwrap().get(idx)
     }
 
     /// Check whether a list contains a value.
